@@ -18,7 +18,8 @@ where
 {
     fn write_xml(&self, writer: &mut W) -> WriterResult<()> {
         for (operation_name, operation) in &self.operations {
-            writeln!(writer, "\n/* {operation_name} */\n")?;
+            // the name is schema text: on one line and escaped, it cannot end the comment
+            writeln!(writer, "\n// {}\n", operation_name.escape_debug())?;
 
             // input
             let operation_name = to_pascal_case(operation_name);
@@ -125,10 +126,10 @@ where
                 let abbreviation = namespace.abbreviation.as_str();
                 writeln!(
                     writer,
-                    "#[yaserde(prefix = \"{abbreviation}\", rename = \"{xml_name}\")]"
+                    "#[yaserde(prefix = \"{abbreviation}\", rename = {xml_name:?})]"
                 )?;
             } else {
-                writeln!(writer, "    #[yaserde(rename = \"{xml_name}\")]")?;
+                writeln!(writer, "    #[yaserde(rename = {xml_name:?})]")?;
             }
 
             // todo: we should check if the "mustUnderstand" == 1 to make the field required
@@ -176,11 +177,11 @@ where
         let abbreviation = namespace.abbreviation.as_str();
         writeln!(
             writer,
-            "    #[yaserde(prefix = \"{abbreviation}\", rename = \"{xml_name}\")]"
+            "    #[yaserde(prefix = \"{abbreviation}\", rename = {xml_name:?})]"
         )?;
         writeln!(writer, "    pub {body_field_name}: {mod_name}::{body_type},",)?;
     } else {
-        writeln!(writer, "    #[yaserde(rename = \"{xml_name}\")]")?;
+        writeln!(writer, "    #[yaserde(rename = {xml_name:?})]")?;
         writeln!(writer, "    pub {body_field_name}: {body_type},")?;
     }
     writeln!(writer, "}}")?;
